@@ -199,9 +199,9 @@ Proof.
   - inversion H; subst. split; simpl; auto. apply delete_snap_good; auto.
 Qed.
 
-Lemma execute_tx_good : forall s st t st' r o, tx_wf t -> execute_tx s st t = (st', r, o) -> xgood0 s st -> xgood0 s st'.
+Lemma execute_tx_inner_good : forall s st t st' r o, tx_wf t -> execute_tx_inner s st t = (st', r, o) -> xgood0 s st -> xgood0 s st'.
 Proof.
-  intros s st t st' r o [W1 [W2 W3]]. unfold execute_tx.
+  intros s st t st' r o [W1 [W2 W3]]. unfold execute_tx_inner.
   match goal with |- context [run s ?x [] (fst (tx_before t))] =>
     set (st0 := x); destruct (run s st0 [] (fst (tx_before t))) as [[st1 l1] o1] eqn:E1 end.
   intros H G.
@@ -217,6 +217,22 @@ Proof.
   destruct (run_good _ _ _ _ _ _ _ W3 E3 (xgood0_nil _ _ G2)) as [A3 [B3 _]].
   destruct (snd (tx_after t)). { inversion H; subst; split; auto. }
   destruct (add (x_log st3) (std_req t success)); inversion H; subst; split; auto.
+Qed.
+
+Lemma execute_tx_good : forall s st t st' r o, tx_wf t -> execute_tx s st t = (st', r, o) -> xgood0 s st -> xgood0 s st'.
+Proof.
+  intros s st t st' r o W. unfold execute_tx, snap. simpl.
+  match goal with |- context [execute_tx_inner s ?x t] => set (st0 := x); destruct (execute_tx_inner s st0 t) as [[st1 r1] o1] eqn:E end.
+  intros H [G1 G2].
+  assert (G0 : xgood0 s st0).
+  { split; simpl; auto. apply (snap_good s (x_root st) (x_cache st)); auto. }
+  destruct (execute_tx_inner_good _ _ _ _ _ _ W E G0) as [A B].
+  inversion H; subst. destruct r.
+  - unfold restore. destruct (nlookup (vs_saved (x_root st1)) (vs_count (x_root st))) eqn:R; simpl.
+    + split; simpl. * eapply B; eauto. * intros id c' E'. simpl in E'. do 2 apply nlookup_nremove_some in E'. eapply B; eauto.
+    + split; simpl; auto. apply delete_snap_good; auto.
+  - split; simpl; auto. apply delete_snap_good; auto.
+  - split; simpl; auto. apply delete_snap_good; auto.
 Qed.
 
 (* the transactions of one block over the block's staged store (ABIHandler.ExecuteTransaction: one EventLogger per call,
